@@ -29,6 +29,7 @@ type Clause struct {
 	LoopOrd int
 	Prop    string
 	Always  bool // ensures that also applies to panic exits (none yet)
+	Internal bool    // proved for the body but not exported to callers (may mention the function's locals)
 	Slow    bool     // checked in the thorough tier only (solver needs more than the quick timeout)
 	Using   []string // tags of earlier ensures clauses that may be used as hypotheses ("by #a, #b")
 }
@@ -495,6 +496,10 @@ func parseContractFile(data, file, pkgPath string) ([]*Contract, error) {
 				if strings.HasPrefix(rest, "slow ") {
 					cl.Slow = true
 					rest = strings.TrimSpace(rest[5:])
+				}
+				if strings.HasPrefix(rest, "internal ") {
+					cl.Internal = true
+					rest = strings.TrimSpace(rest[9:])
 				}
 				if strings.HasPrefix(rest, "#") {
 					j := strings.IndexByte(rest, ':')
